@@ -1,5 +1,6 @@
 PROP = {
-    "groups": ["pausemodel", "pausecomp", "pausedown", "pausedowncomp", "pauseprobe", "pausesend", "e2e-pause"],
+    "shared_groups": "also runs the neighbouring groups whose code can break this property: e2e-stop (described under C10)",
+    "groups": ["pausemodel", "pausecomp", "pausedown", "pausedowncomp", "pauseprobe", "pausesend", "e2e-pause", "e2e-stop"],
     "timeout": 900,
     "nontrivial_floor": 0.02,
     "rule": "pausemodel: the REAL recvCheckV2 and checkStopAndPause of a real trzszTransfer (Timeout 1 s, protocol 2/3/4) are driven "
